@@ -496,6 +496,10 @@ def run(ctx):
     # deleting one's own snapshot never removes chunks that snapshots of other users (same key family) still reference
     r1_keep_set(Relabel(ctx, 'C06.R7'), DeleteRoles(ctx.corpus))
     r8_session_key_fixed(ctx)
+    from .shared import deletion_confined_to_gc_commands
+
+    # a user can not cause the removal of another user's chunks: only delete / clean remove anything, and those are gated below
+    deletion_confined_to_gc_commands(ctx, 'C06.R9')
     r7_shared(ctx)
     r1_unlock(ctx)
     # "a wrong password never unlocks": a key whose private section is not sealed unlocks with ANY password
